@@ -424,6 +424,8 @@ def record_tables(draw: Any, max_recs: int = 12,
     # bound, so 0 for optimal packings) evaluated next to the seven built-in
     # ones: the only way to get objective values and bounds equal to 0
     custom = draw(st.booleans())
+    custom_name = draw(st.sampled_from(["excessBins", "excessBins", "f", "x",
+                                        "e2"])) if custom else None
     objs = draw(st.lists(st.integers(0, 7 if custom else 6), min_size=1,
                          max_size=3, unique=True))
     encs = draw(st.lists(st.sampled_from(ENC_POOL), min_size=1, max_size=2))
@@ -485,5 +487,5 @@ def record_tables(draw: Any, max_recs: int = 12,
             rec["bounds_kept"] = draw(st.one_of(st.none(), st.lists(
                 st.booleans(), min_size=3, max_size=3)))
     return {"insts": insts, "recs": recs, "goal_mode": goal_mode,
-            "custom": custom,
+            "custom": custom, "custom_name": custom_name,
             "key_order": draw(st.sampled_from([0, 0, 1, 2]))}
